@@ -40,7 +40,8 @@ type input struct {
 	Delays []int          `json:"delays"`
 	Buf    int            `json:"buf"`
 	Cfg    map[string]int `json:"cfg,omitempty"`
-	// ExactIdeal asks for the tick-level comparison of the ideal controller's control path
+	// Exact asks for the tick-level comparison of the ideal controller's control path
+	Exact     bool   `json:"exact,omitempty"`
 	MaxCycles uint64 `json:"max_cycles,omitempty"`
 }
 
@@ -151,11 +152,17 @@ func run(raw json.RawMessage) (hx.Case, error) {
 	// observation hooks on the agent's own ports
 	acked := false
 	var ctrlBuf []uint64 // IDs waiting in the agent's Control incoming buffer
+	var arrived [][2]uint64 // control requests delivered since the agent's previous tick
+	var tickOut []string    // control responses sent during the agent's current tick
+	var ticks, tickObs []string
 	autCtrl.AcceptHook(&memdrv.FuncHook{F: func(ctx hooking.HookCtx) {
 		switch ctx.Pos {
 		case messaging.HookPosPortMsgRecvd:
 			if m, ok := ctx.Item.(messaging.Msg); ok && m != nil {
 				ctrlBuf = append(ctrlBuf, m.Meta().ID)
+				if rq, ok := m.(memcontrolprotocol.Req); ok {
+					arrived = append(arrived, [2]uint64{rq.ID, uint64(rq.Command)})
+				}
 			}
 			return
 		case messaging.HookPosPortMsgRetrieveIncoming:
@@ -173,6 +180,7 @@ func run(raw json.RawMessage) (hx.Case, error) {
 			return
 		}
 		log(event{K: "rsp", ID: rsp.RspTo, Cmd: int(rsp.Command), OK: rsp.Success, Err: rsp.Error})
+		tickOut = append(tickOut, hx.App("IRsp", hx.N(uint64(rsp.Command)), hx.N(rsp.RspTo), hx.B(rsp.Success), hx.N(errCode(rsp.Error))))
 		if rsp.Success && (rsp.Command == memcontrolprotocol.CmdDrain || rsp.Command == memcontrolprotocol.CmdReset) {
 			// is another command already waiting behind the acknowledged one?
 			// (the port's own lock is held inside its hooks, so its buffer is mirrored here)
@@ -209,6 +217,22 @@ func run(raw json.RawMessage) (hx.Case, error) {
 	}
 	limit := freq.Period() * timing.VTimeInPicoSec(maxCycles+2000)
 	sim.Engine.AcceptHook(&memdrv.FuncHook{F: func(ctx hooking.HookCtx) {
+		if ev, ok := ctx.Item.(timing.Event); ok && in.Exact && ev.HandlerID() == "AUT" {
+			ic := r.ideal
+			switch ctx.Pos {
+			case timing.HookPosBeforeEvent:
+				as := make([]string, len(arrived))
+				for i, a := range arrived {
+					as[i] = hx.T(hx.N(a[0]), hx.N(a[1]))
+				}
+				arrived = arrived[:0]
+				tickOut = tickOut[:0]
+				ticks = append(ticks, hx.App("mk_itick", hx.L(as), hx.Nat(buf-autCtrl.NumOutgoing()),
+					hx.B(len(ic.State.InflightTransactions) == 0)))
+			case timing.HookPosAfterEvent:
+				tickObs = append(tickObs, hx.T(hx.L(append([]string{}, tickOut...)), hx.N(uint64(ic.State.ControlState)), hx.N(ic.State.CurrentCmdID)))
+			}
+		}
 		switch ctx.Pos {
 		case timing.HookPosAfterEvent:
 			if acked {
@@ -333,6 +357,13 @@ func run(raw json.RawMessage) (hx.Case, error) {
 		}
 	}
 	agentIdx := sort.SearchStrings(sortedAgents(), in.Agent)
+	if in.Exact {
+		c := hx.Case{Obs: o}
+		c.Coq = hx.App("IdealCase", hx.L(ticks), hx.L(tickObs))
+		c.Tags = []string{"agent:" + in.Agent, "exact-tick-level"}
+		c.Nontrivial = counts["rsp"] >= 3
+		return c, nil
+	}
 	c := hx.Case{Obs: o}
 	c.Coq = hx.App("mk_case", hx.N(uint64(agentIdx)), hx.L(M), hx.L(evs), hx.B(o.Problem == ""))
 	c.Tags = append(c.Tags, "agent:"+in.Agent, "matrix:"+mname)
